@@ -1,6 +1,7 @@
 package main
 
 import (
+	"sync"
 	"bufio"
 	"encoding/json"
 	"flag"
@@ -210,119 +211,149 @@ func runProperty(prop, tier, repo string, cs *Contracts, timeout int, verbose bo
 		key string
 		cfg string
 	}
-	seenHash := map[string]*Obligation{}
-	for _, cfg := range configs {
-		p, err := LoadProg(repo, cfg.name, cfg.tags, cs)
-		if err != nil {
-			r.genErrors = append(r.genErrors, fmt.Sprintf("cannot load configuration %s: %v", cfg.name, err))
-			continue
-		}
-		work := []string{}
-		for k := range roots {
-			work = append(work, k)
-		}
-		sort.Strings(work)
-		done := map[string]bool{}
-		var batch []*Obligation
-		for len(work) > 0 {
-			k := work[0]
-			work = work[1:]
-			if done[k] {
-				continue
+	// phase 1: obligation generation, the two build configurations side by side (each has its own program,
+	// executor states and result lists; the contracts are read-only)
+	type cfgOut struct {
+		genErrors []string
+		notes     []string
+		trusted   map[string]string
+		funcs     []string
+		obls      []*Obligation
+	}
+	outs := make([]*cfgOut, len(configs))
+	var wgc sync.WaitGroup
+	for ci, cfg := range configs {
+		ci, cfg := ci, cfg
+		out := &cfgOut{trusted: map[string]string{}}
+		outs[ci] = out
+		wgc.Add(1)
+		go func() {
+			defer wgc.Done()
+			p, err := LoadProg(repo, cfg.name, cfg.tags, cs)
+			if err != nil {
+				out.genErrors = append(out.genErrors, fmt.Sprintf("cannot load configuration %s: %v", cfg.name, err))
+				return
 			}
-			done[k] = true
-			ct := cs.Funcs[k]
-			isInit := false
-			if ct == nil {
-				if f0 := p.funcs[k]; f0 != nil && f0.Synthetic == "package initializer" && hasGlobalInv(cs, f0.Pkg.Pkg.Path()) {
-					isInit = true
-				} else {
+			work := []string{}
+			for k := range roots {
+				work = append(work, k)
+			}
+			sort.Strings(work)
+			done := map[string]bool{}
+			for len(work) > 0 {
+				k := work[0]
+				work = work[1:]
+				if done[k] {
 					continue
 				}
-			}
-			if !isInit && ct.Trusted {
-				r.trusted[k] = ct.TrustedWhy
-				continue
-			}
-			fn := p.funcs[k]
-			if fn == nil {
-				// functions that exist only in one configuration (e.g. assembly stubs) are fine if they exist in the other
-				if !existsInOtherCfg(k, cs) {
-					r.genErrors = append(r.genErrors, fmt.Sprintf("%s@%s: function under contract does not exist", k, cfg.name))
+				done[k] = true
+				ct := cs.Funcs[k]
+				isInit := false
+				if ct == nil {
+					if f0 := p.funcs[k]; f0 != nil && f0.Synthetic == "package initializer" && hasGlobalInv(cs, f0.Pkg.Pkg.Path()) {
+						isInit = true
+					} else {
+						continue
+					}
 				}
-				continue
-			}
-			if len(fn.Blocks) == 0 {
-				r.genErrors = append(r.genErrors, fmt.Sprintf("%s@%s: function under contract has no Go body and is not marked trusted", k, cfg.name))
-				continue
-			}
-			if os.Getenv("GOCV_DEBUG") != "" {
-				fmt.Fprintf(os.Stderr, "gen %s@%s\n", k, cfg.name)
-			}
-			res := VerifyFunc(p, fn)
-			r.funcs[k+"@"+cfg.name] = true
-			for _, e := range res.SpecErrs {
-				r.genErrors = append(r.genErrors, fmt.Sprintf("%s@%s: %s", k, cfg.name, e))
-			}
-			for _, e := range res.Missing {
-				r.genErrors = append(r.genErrors, fmt.Sprintf("%s@%s: contract refers to %s which does not exist in the function", k, cfg.name, e))
-			}
-			for _, n := range res.Notes {
-				r.notes = append(r.notes, fmt.Sprintf("%s@%s: %s", k, cfg.name, n))
-			}
-			for _, t := range res.Trusted {
-				if strings.HasPrefix(t, "assumes:") {
-					r.trusted[t] = "postcondition assumed at call sites, not checked against the body"
+				if !isInit && ct.Trusted {
+					out.trusted[k] = ct.TrustedWhy
 					continue
 				}
-				if c := cs.Funcs[t]; c != nil {
-					r.trusted[t] = c.TrustedWhy
+				fn := p.funcs[k]
+				if fn == nil {
+					if !existsInOtherCfg(k, cs) {
+						out.genErrors = append(out.genErrors, fmt.Sprintf("%s@%s: function under contract does not exist", k, cfg.name))
+					}
+					continue
 				}
-			}
-			nonVac := 0
-			for _, o := range res.Obls {
-				if !o.Vacuity {
-					nonVac++
+				if len(fn.Blocks) == 0 {
+					out.genErrors = append(out.genErrors, fmt.Sprintf("%s@%s: function under contract has no Go body and is not marked trusted", k, cfg.name))
+					continue
 				}
-			}
-			if nonVac == 0 {
-				r.genErrors = append(r.genErrors, fmt.Sprintf("%s@%s: no obligation was generated (vacuous contract)", k, cfg.name))
-			}
-			for _, o := range res.Obls {
-				h := o.QueryHash()
-				if prev, ok := seenHash[h]; ok {
-					o.dupOf = prev
-					r.cachedDup++
-				} else if cd := os.Getenv("GOCV_CACHE"); cd != "" && !o.Vacuity && cacheHit(cd, h) {
-					// development aid only (off unless GOCV_CACHE is set): an identical query was answered unsat before
-					o.Status, o.Solver = "unsat", "cache"
-					seenHash[h] = o
-				} else {
-					seenHash[h] = o
-					batch = append(batch, o)
+				if os.Getenv("GOCV_DEBUG") != "" {
+					fmt.Fprintf(os.Stderr, "gen %s@%s\n", k, cfg.name)
 				}
-				r.obls = append(r.obls, o)
-			}
-			for _, c := range res.Called {
-				if !done[c] {
-					work = append(work, c)
+				res := VerifyFunc(p, fn)
+				out.funcs = append(out.funcs, k+"@"+cfg.name)
+				for _, e := range res.SpecErrs {
+					out.genErrors = append(out.genErrors, fmt.Sprintf("%s@%s: %s", k, cfg.name, e))
 				}
-			}
-			if fn.Pkg != nil && fn.Synthetic == "" {
-				for _, gi := range cs.GlobalInvs {
-					ik := gi.Pkg + ".init"
-					if !done[ik] {
-						work = append(work, ik)
+				for _, e := range res.Missing {
+					out.genErrors = append(out.genErrors, fmt.Sprintf("%s@%s: contract refers to %s which does not exist in the function", k, cfg.name, e))
+				}
+				for _, n := range res.Notes {
+					out.notes = append(out.notes, fmt.Sprintf("%s@%s: %s", k, cfg.name, n))
+				}
+				for _, t := range res.Trusted {
+					if strings.HasPrefix(t, "assumes:") {
+						out.trusted[t] = "postcondition assumed at call sites, not checked against the body"
+						continue
+					}
+					if c := cs.Funcs[t]; c != nil {
+						out.trusted[t] = c.TrustedWhy
+					}
+				}
+				nonVac := 0
+				for _, o := range res.Obls {
+					if !o.Vacuity {
+						nonVac++
+					}
+				}
+				if nonVac == 0 {
+					out.genErrors = append(out.genErrors, fmt.Sprintf("%s@%s: no obligation was generated (vacuous contract)", k, cfg.name))
+				}
+				out.obls = append(out.obls, res.Obls...)
+				for _, c := range res.Called {
+					if !done[c] {
+						work = append(work, c)
+					}
+				}
+				if fn.Pkg != nil && fn.Synthetic == "" {
+					for _, gi := range cs.GlobalInvs {
+						ik := gi.Pkg + ".init"
+						if !done[ik] {
+							work = append(work, ik)
+						}
 					}
 				}
 			}
+		}()
+	}
+	wgc.Wait()
+	// phase 2: merge in configuration order, share identical queries, discharge
+	seenHash := map[string]*Obligation{}
+	var batch []*Obligation
+	for _, out := range outs {
+		r.genErrors = append(r.genErrors, out.genErrors...)
+		r.notes = append(r.notes, out.notes...)
+		for k, v := range out.trusted {
+			r.trusted[k] = v
 		}
-		solveAll(batch, timeout, 16)
-		if cd := os.Getenv("GOCV_CACHE"); cd != "" {
-			for _, o := range batch {
-				if o.Status == "unsat" && !o.Vacuity && o.Solver != "cache" {
-					cachePut(cd, o.QueryHash())
-				}
+		for _, f := range out.funcs {
+			r.funcs[f] = true
+		}
+		for _, o := range out.obls {
+			h := o.QueryHash()
+			if prev, ok := seenHash[h]; ok {
+				o.dupOf = prev
+				r.cachedDup++
+			} else if cd := os.Getenv("GOCV_CACHE"); cd != "" && !o.Vacuity && cacheHit(cd, h) {
+				// development aid only (off unless GOCV_CACHE is set): an identical query was answered unsat before
+				o.Status, o.Solver = "unsat", "cache"
+				seenHash[h] = o
+			} else {
+				seenHash[h] = o
+				batch = append(batch, o)
+			}
+			r.obls = append(r.obls, o)
+		}
+	}
+	solveAll(batch, timeout, 16)
+	if cd := os.Getenv("GOCV_CACHE"); cd != "" {
+		for _, o := range batch {
+			if o.Status == "unsat" && !o.Vacuity && o.Solver != "cache" {
+				cachePut(cd, o.QueryHash())
 			}
 		}
 	}
